@@ -14,7 +14,8 @@ def gen_stage_world(rng, **force):
              n_variants=rng.choice([4, 5, 6, 7]), n_major=rng.choice([2, 3, 4]),
              kinds=["snp", "snp", "snp", "del", "ins", "mnp"], deletion=rng.random() < 0.7,
              lfusion=rng.random() < 0.4, rfusion=rng.random() < 0.4, pseudo=rng.random() < 0.85,
-             ambiguous=rng.random() < 0.5, cn_subset=rng.random() < 0.3)
+             ambiguous=rng.random() < 0.5, cn_subset=rng.random() < 0.3,
+             multiallelic=rng.random() < 0.5)
     o.update(force)
     if not o["pseudo"]:
         o["lfusion"] = o["rfusion"] = False
@@ -114,10 +115,15 @@ def random_cn(rng, gene, max_copies=3):
 def random_planted(rng, gene, cn):
     """Alleles matching a structure: list of (major, minor)."""
     out = []
+    twin = rng.random() < 0.3
     for conf in cn:
         cands = [a for a in gene.alleles.values() if a.cn_config == conf]
         if not cands:
             return None
+        same = [e for e in out if gene.alleles[e[0]].cn_config == conf]
+        if twin and same:
+            out.append(same[0])  # two copies of the very same minor allele
+            continue
         a = rng.choice(cands)
         out.append((a.name, rng.choice(sorted(a.minors))))
     return out
